@@ -29,6 +29,7 @@ CONSTANTS
   Goals,         \* hop counts an originator may ask for
   Origins,       \* nodes that originate circuits
   AdvKinds,      \* adversary actions enabled in this configuration
+  AdvSrcs,       \* source addresses the attacker claims (its own, spoofed honest ones)
   UseIds,        \* TRUE: datagrams carry their send sequence number (trace validation); FALSE: anonymous (model checking)
   TrackWire,     \* keep the eavesdropper's history (needed by NoRepeatOnLinks / replayed destroys)
   NodeTeardown,  \* TRUE: relays / exits may tear a circuit down on their own initiative
@@ -77,7 +78,7 @@ Init ==
   /\ pend = {} /\ net = {}
   /\ ctr = [msg |-> 0, cid |-> 0, ident |-> 0, eph |-> 0, data |-> 0]
   /\ now = 0 /\ sweepAt = [n \in Node |-> SweepEvery] /\ pingAt = [n \in Node |-> PingEvery]
-  /\ hist = [sent |-> EmptyF, exitLog |-> {}, origLog |-> {}, fwdEarly |-> EmptyF]
+  /\ hist = [sent |-> EmptyF, exitLog |-> {}, origLog |-> {}, fwdEarly |-> EmptyF, joined |-> {}]
   /\ budget = [loss |-> 0, dup |-> 0, adv |-> 0]
   /\ wire = {} /\ stepc = 0 /\ gone = {}
 
@@ -259,7 +260,7 @@ OnCreate(d) ==
      IF ~WillJoin(n, cid)
      THEN /\ Emit({d}, <<>>)
           /\ circ' = [circ EXCEPT ![n] = Beat(@, n, cid)]
-          /\ UNCHANGED <<exit, createdC, ctr>>
+          /\ UNCHANGED <<exit, createdC, ctr, hist>>
      ELSE LET e2  == ctr.eph + 1
               key == [e1 |-> m.eph, e2 |-> e2, st |-> n]
               ans == [t |-> "created", cid |-> cid, ident |-> m.ident, eph |-> e2,
@@ -270,7 +271,8 @@ OnCreate(d) ==
              /\ Emit({d}, StampIds(<<Cell(n, d.src, cid, TRUE, FALSE, <<>>, ans)>>))
              /\ ctr' = [ctr EXCEPT !.eph = e2, !.msg = Bump(@, 1)]
              /\ circ' = [circ EXCEPT ![n] = Beat(@, n, cid)]
-  /\ UNCHANGED <<relay, retryC, createC, pingC, pend, now, sweepAt, pingAt, hist, budget>>
+             /\ hist' = [hist EXCEPT !.joined = @ \cup {[n |-> n, key |-> key]}]
+  /\ UNCHANGED <<relay, retryC, createC, pingC, pend, now, sweepAt, pingAt, budget>>
 
 \* send_extend: choose the next hop among the offered candidates (first not excluded), or give up
 NextChoice(n, c, cands) ==
@@ -683,11 +685,11 @@ Adversary ==
   \/ "tamper" \in AdvKinds /\ \E d \in net : Tamper(d)
   \/ "header" \in AdvKinds /\ \E d \in net, what \in {"drop", "cid", "plain", "early"} : TamperHeader(d, what)
   \/ "splice" \in AdvKinds /\ \E d \in net, cid \in 1..ctr.cid : Splice(d, cid)
-  \/ "inject" \in AdvKinds /\ \E src \in Everyone, dst \in Node, cid \in 0..ctr.cid, mt \in {"data", "ping", "extend", "extended"} :
+  \/ "inject" \in AdvKinds /\ \E src \in AdvSrcs, dst \in Node, cid \in 0..ctr.cid, mt \in {"data", "ping", "extend", "extended"} :
         Inject(src, dst, cid, mt)
-  \/ "create" \in AdvKinds /\ \E src \in Everyone, dst \in Node, cid \in 0..ctr.cid : AdvCreate(src, dst, cid)
-  \/ "plain" \in AdvKinds /\ \E src \in Everyone, dst \in Node, cid \in 1..ctr.cid, mt \in {"data", "ping"} : AdvPlain(src, dst, cid, mt)
-  \/ "destroy" \in AdvKinds /\ \E src \in Everyone, dst \in Node, cid \in 1..ctr.cid, s \in Everyone : ForgeDestroy(src, dst, cid, s)
+  \/ "create" \in AdvKinds /\ \E src \in AdvSrcs, dst \in Node, cid \in 0..ctr.cid : AdvCreate(src, dst, cid)
+  \/ "plain" \in AdvKinds /\ \E src \in AdvSrcs, dst \in Node, cid \in 1..ctr.cid, mt \in {"data", "ping"} : AdvPlain(src, dst, cid, mt)
+  \/ "destroy" \in AdvKinds /\ \E src \in AdvSrcs, dst \in Node, cid \in 1..ctr.cid, s \in Everyone : ForgeDestroy(src, dst, cid, s)
   \/ "mangle" \in AdvKinds /\ \E d \in net, how \in {"ident", "cid", "eph", "ephauth", "auth", "cands"}, c \in 0..ctr.cid :
         (how # "cid" => c = 0) /\ MangleAnswer(d, how, c)
 
@@ -734,8 +736,10 @@ ExitOnlyOwn ==
 EntriesStable ==
   [][\A n \in Node :
        /\ \A c \in DOMAIN exit[n] \cap DOMAIN exit'[n] : exit'[n][c].key = exit[n][c].key /\ exit'[n][c].prev = exit[n][c].prev
-       /\ \A c \in DOMAIN relay[n] \cap DOMAIN relay'[n] : relay'[n][c].key = relay[n][c].key /\ relay'[n][c].to = relay[n][c].to
-                                                          /\ relay'[n][c].next = relay[n][c].next
+       \* (a relay that sent two creates for one extend - duplicated extend cell - re-points its forward route when the
+       \*  second created arrives within remove_tunnel_delay: the key never changes, the far side may; see DESIGN.md)
+       /\ \A c \in DOMAIN relay[n] \cap DOMAIN relay'[n] : relay'[n][c].key = relay[n][c].key
+                                                          /\ relay'[n][c].dir = relay[n][c].dir
        /\ \A c \in DOMAIN circ[n] \cap DOMAIN circ'[n] : IsPrefix(circ[n][c].hops, circ'[n][c].hops)]_vars
 \* a circuit id names one thing per node: a create never installs an exit socket under an id the node already uses
 \* (the only legitimate overlap is an exit entry that became a relay and is waiting for its delayed removal)
@@ -763,14 +767,14 @@ AdvKnows(k) == (k.e1 = 0 \/ k.e2 = 0) /\ (k.e1 = 0 \/ k.st = Adv)
 \* a key the originator accepted for a hop is bound to the static identity of the peer it selected, never known to Adv
 NoForeignKey == \A x \in Circs : LET c == circ[x[1]][x[2]] IN
                   \A i \in DOMAIN c.hops : c.hops[i].key.st = c.hops[i].peer /\ ~AdvKnows(c.hops[i].key) /\ c.hops[i].key.e1 # 0
-\* without interference both ends of every hop hold the same key
+\* without interference both ends of every hop hold the same key: the key the originator derived for a hop is a key the
+\* selected peer installed when it joined (history variable joined), and no other node ever installed it
 KeyAgreement ==
   budget.adv = 0 =>
     \A x \in Circs : LET c == circ[x[1]][x[2]] IN
       \A i \in DOMAIN c.hops :
-        \A n \in Node :
-          /\ \A e \in DOMAIN exit[n] : exit[n][e].key.e1 = c.hops[i].key.e1 => (exit[n][e].key = c.hops[i].key /\ n = c.hops[i].peer)
-          /\ \A r \in DOMAIN relay[n] : relay[n][r].key.e1 = c.hops[i].key.e1 => (relay[n][r].key = c.hops[i].key /\ n = c.hops[i].peer)
+        /\ [n |-> c.hops[i].peer, key |-> c.hops[i].key] \in hist.joined
+        /\ \A j \in hist.joined : j.key = c.hops[i].key => j.n = c.hops[i].peer
 \* a hop is only added by an answer that carries the identifier of the outstanding request of that circuit
 AnswerMustMatch ==
   [][\A n \in Node : \A c \in DOMAIN circ[n] \cap DOMAIN circ'[n] :
